@@ -45,12 +45,12 @@ theorem selBits_eq_iff (w i : Nat) (sel : BV) (hw : sel.length = w) (hi : i < 2 
     subst h
     rw [selBits, ← hw, bitsOfNat_natOfBools]
 
-theorem exec_caseAlts (rd : Rd) (st : PSt) (isLocal : Bool) (t : String) (ty : Ty) (w width : Nat) (sel : BV)
+theorem exec_caseAlts (rd : Rd) (st : PSt) (isLocal : Bool) (t : String) (ty : Ty) (w : Nat) (xE : Expr) (sel : BV)
     (hw : sel.length = w) (hty : rd.ty t = some ty) (vX : Val)
-    (hX : evalRhs (rd.withVars st.vars) ty (.str (List.replicate width .X)) = .ok vX) :
+    (hX : evalRhs (rd.withVars st.vars) ty xE = .ok vX) :
     ∀ (ins : List (Expr × Val)) (i : Nat), i ≤ natOfBools sel → i + ins.length ≤ 2 ^ w →
       (∀ p ∈ ins, evalRhs (rd.withVars st.vars) ty p.1 = .ok p.2) →
-      execAlts rd st (ofBools sel) (caseAlts isLocal t w width i (ins.map (·.1))) =
+      execAlts rd st (ofBools sel) (caseAlts isLocal t w xE i (ins.map (·.1))) =
         .ok (assignTo isLocal st t (((ins.map (·.2))[natOfBools sel - i]?).getD vX)) := by
   intro ins
   induction ins with
@@ -78,17 +78,17 @@ theorem exec_caseAlts (rd : Rd) (st : PSt) (isLocal : Bool) (t : String) (ty : T
 
 /-- n-ary multiplexer emitted as CASE (`Process.cpp:798-838`): the target gets the selected input; if the selector value has no
 input (`WHEN OTHERS`) it gets all-'X' — the reference multiplexer yields "undefined" there -/
-theorem mux_case_sound (rd : Rd) (st : PSt) (isLocal : Bool) (t : String) (ty : Ty) (selE : Expr) (w width : Nat) (sel : BV)
+theorem mux_case_sound (rd : Rd) (st : PSt) (isLocal : Bool) (t : String) (ty : Ty) (selE : Expr) (w : Nat) (xE : Expr) (sel : BV)
     (ins : List (Expr × Val)) (vX : Val)
     (hw : sel.length = w) (hty : rd.ty t = some ty) (hfit : ins.length ≤ 2 ^ w)
     (hsel : evalExpr (rd.withVars st.vars) selE = .ok (.uns (ofBools sel)))
     (hvals : ∀ p ∈ ins, evalRhs (rd.withVars st.vars) ty p.1 = .ok p.2)
-    (hX : evalRhs (rd.withVars st.vars) ty (.str (List.replicate width .X)) = .ok vX) :
-    execStmt rd st (muxCaseStmt isLocal t selE w width (ins.map (·.1))) =
+    (hX : evalRhs (rd.withVars st.vars) ty xE = .ok vX) :
+    execStmt rd st (muxCaseStmt isLocal t selE w xE (ins.map (·.1))) =
       .ok (assignTo isLocal st t ((refMux sel (ins.map (·.2))).getD vX)) := by
   rw [muxCaseStmt, execStmt]
   simp only [hsel, bind, Except.bind, caseSelBits, Val.vec?]
-  rw [exec_caseAlts rd st isLocal t ty w width sel hw hty vX hX ins 0 (Nat.zero_le _) (by omega) hvals]
+  rw [exec_caseAlts rd st isLocal t ty w xE sel hw hty vX hX ins 0 (Nat.zero_le _) (by omega) hvals]
   simp [refMux]
 
 /-! ### rewire: concatenation -/
